@@ -25,7 +25,7 @@ ASSUMPTIONS = ["lattices are dyadic so the closed-box predicate is decidable exa
 L5 = [-3.0, -0.5, 0.0, 2.0, 7.25]
 RB = [-2.0, 0.0, 1.5, 3.0]
 PV = [-3.0, -2.25, -2.0, -1.75, -0.25, 0.0, 0.25, 1.25, 1.5, 1.75, 2.75, 3.0, 3.25, 4.0]
-FORMS = ["1d", "2d", "2dF", "view", "int", "int_e", "series", "extra", "0d"]
+FORMS = ["1d", "2d", "2dF", "view", "int", "int_e", "series", "extra", "0d", "nan"]
 SREG = [[0.0, 10.0, -2.0, -1.0], [-4.0, -4.0, 1.0, 3.0], [1024.0, 1024.5, -8.0, 8.0], [0.0, 0.0, 0.0, 0.0]]
 MV = [-3.0, -1.0, 0.0, 2.0, float("nan")]
 
@@ -168,6 +168,11 @@ def run(case, rec):
             ea = ea[keep].astype(np.int64)
             na = na[keep].astype(np.int64)
             want = want[keep]
+        if form == "nan":
+            # NaN coordinates satisfy no inequality: such points are outside every region (seed C13-r3_2)
+            nanpts = [(float("nan"), y) for y in PV] + [(x, float("nan")) for x in PV] + [(float("nan"), float("nan"))]
+            ea = np.array([p[0] for p in nanpts]); na = np.array([p[1] for p in nanpts])
+            want = np.zeros(len(nanpts), dtype=bool)
         if form == "int_e":
             keep = [i for i, p in enumerate(pts) if p[0] == int(p[0])]
             ea, na, want = ea[keep].astype(np.int64), na[keep], want[keep]
